@@ -39,7 +39,8 @@ def main():
     try:
         shutil.copytree(VERIF, ver, symlinks=True)
         gm = os.path.join(ver, "go", "harness", "go.mod")
-        open(gm, "w").write(open(gm).read().replace("=> /repo", "=> " + repo))
+        txt = open(gm).read().replace("=> /repo", "=> " + repo)
+        open(gm, "w").write(txt)
         rc, out = sh(["git", "apply", patch], cwd=repo)
         assert rc == 0, "patch does not apply: " + out
         rc, out = sh(["bash", "-c", "go build ./... && go test -vet=off -count=1 ./..."], cwd=repo)
